@@ -21,7 +21,7 @@ fn spec(t: Tier) -> Spec {
     Spec {
         id: "C09",
         level: "exploration",
-        rule: format!("files named by every string of <= {} characters over {:?} (plus '{{}}', '-a', 'a b', \"a'b\") in one directory, and a directory of names that are not valid UTF-8 (bytes ff, c3, a ff b); argument templates = every list of <= {} arguments over the pieces {:?}; child outcomes {:?} (scripted per invocation; 'missing' = command does not exist); positions of the action {:?}; -exec and -execdir. Slices: all templates x all names (outcome 0, both primaries); all outcomes x positions x primaries on 3 templates with outcomes alternating per file; a binary slice through the find binary. The recorder child logs its argv and cwd: there must be exactly one run per entry on which the action is reached, in visit order (-sorted), each argument = the template with every '{{}}' replaced by the path (t/NAME, or ./NAME with cwd = the parent directory for -execdir) and all other text unchanged, element for element byte-identical; a following labelled -printf fires exactly for the entries whose child exited 0; find's exit status stays 0 whatever the children do. evaluation = one child invocation checked; non-trivial = name with a character other than a and .", t.pick(1, 2), ALPHA, t.pick(2, 3), PIECES, OUTCOMES, POSITIONS),
+        rule: format!("files named by every string of <= {} characters over {:?} (plus '{{}}', '-a', 'a b', \"a'b\") in one directory, and a directory of names that are not valid UTF-8 (bytes ff, c3, a ff b); argument templates = every list of <= {} arguments over the pieces {:?}; child outcomes {:?} (scripted per invocation; 'missing' = command does not exist); positions of the action {:?}; -exec and -execdir. Slices: all templates x all names (outcome 0, both primaries); all outcomes x positions x primaries on 3 templates with outcomes alternating per file; a binary slice through the find binary. The recorder child logs its argv and cwd: there must be exactly one run per entry on which the action is reached, in visit order (-sorted), each argument = the template with every '{{}}' replaced by the path (t/NAME, or ./NAME with cwd = the parent directory for -execdir) and all other text unchanged, element for element byte-identical; a following labelled -printf fires exactly for the entries whose child exited 0; find's exit status stays 0 whatever the children do. evaluation = one child invocation checked; scale templates: one argument holding {{}} 5, 8, 9, 12 and 20 times, 30 arguments {{}}, 70 000 bytes of literal text before and 100 000 after a {{}}; non-trivial = name with a character other than a and .", t.pick(1, 2), ALPHA, t.pick(2, 3), PIECES, OUTCOMES, POSITIONS),
         bound: json!({"max_name_len": t.pick(1, 2), "max_template_args": t.pick(2, 3), "outcomes": OUTCOMES, "positions": POSITIONS}),
         assumptions: vec!["the labelled -printf (truth value) is only used on names that are valid UTF-8; tmpfs; -sorted pins the visit order; children are real processes (fork+exec per file)".into()],
         shards: 0,
@@ -342,6 +342,27 @@ fn run(ctx: &mut Ctx) {
                 let c = Case { execdir, template: t, script: vec!["0", "1"], position: "before-printf", missing: false, binary: false, missing_kind: "", walk };
                 report(ctx, &ns, &c, maxlen);
             }
+        }
+    }
+    // slice 2c: scale — one argument holding `{}` 5, 8, 9, 12 and 20 times, 30 arguments `{}`, and
+    // arguments with 70 000 bytes of literal text before / 100 000 after the `{}`
+    let leak = |s: String| -> &'static str { Box::leak(s.into_boxed_str()) };
+    let mut big: Vec<Vec<&'static str>> = vec![];
+    for k in [5usize, 8, 9, 12, 20] {
+        big.push(vec!["pre", leak(format!("<{}", (0..k).map(|j| format!("{{}}{j}|")).collect::<String>()))]);
+    }
+    big.push(vec!["{}"; 30]);
+    big.push(vec![leak(format!("{}{{}}y{{}}", "x".repeat(70_000)))]);
+    big.push(vec![leak(format!("{{}}{}", "z".repeat(100_000))), "{}"]);
+    for t in &big {
+        for execdir in [false, true] {
+            job += 1;
+            if !ctx.mine(job) {
+                continue;
+            }
+            let c = Case { execdir, template: t, script: vec!["0"], position: "before-printf", missing: false, binary: false, missing_kind: "", walk: "plain" };
+            report(ctx, &ns, &c, maxlen);
+            ctx.rep.count("scale_templates", 1);
         }
     }
     // slice 3: names that are not valid UTF-8 (argv bytes only: the labelled output is not used)
